@@ -17,11 +17,13 @@ const ShapeInfo kShapes[] = {
     {"x"},     {"X"},     {"gs"},    {"GS"},    {"Rs"},   {"gS"},   {"gvs"},   {"GVS"},  {"GOS"},
     {"goS"},   {"RPS"},   {"Gps"},   {"GVOS"},  {"GOVS"}, {"gvvs"}, {"RPOs"},  {"GoOS"}, {"GVVVS"},
     {"GOVOS"}, {"gvovs"}, {"RPVPS"}, {"GvOVs"}, {"GOOOS"}, {"Gs"},  {"GVs"},
+    {"GC"},    {"gc"},    {"GWC"},   {"GwS"},   {"GVC"},
 };
 const int kNumShapes = static_cast<int>(sizeof(kShapes) / sizeof(kShapes[0]));
 
 void runShape(int shape, dispenso::ThreadPool& pool) {
-  if (shape <= 5 || shape == 23) runShapes_g0(shape, pool);
+  if (shape >= 25) runShapes_g6(shape, pool);
+  else if (shape <= 5 || shape == 23) runShapes_g0(shape, pool);
   else if (shape <= 10) runShapes_g1(shape, pool);
   else if (shape <= 13 || shape == 24) runShapes_g2(shape, pool);
   else if (shape <= 17) runShapes_g3(shape, pool);
@@ -52,6 +54,11 @@ struct Spec {
   bool bg = false;
   bool unbounded = false;
   bool tail = false;
+  int reps = 1; // the same pipeline is run this many times on one pool inside the case
+  int slowStage = -1;
+  long slowFrom = 0;
+  int slowUs = 0;
+  std::string family; // scenario family tag (also part of the key)
   long throwLo[kMaxStages] = {0, 0, 0, 0, 0};
   long throwHi[kMaxStages] = {-1, -1, -1, -1, -1};
   uint64_t salt = 1;
@@ -119,6 +126,9 @@ struct Spec {
     if (anyThrow()) j.arr("throwLo", tl).arr("throwHi", th).kv("pos", posClass);
     j.kv("yield", yieldInStage).kv("hookPipe", hookPipe).kv("hookPool", hookPool).kv("futexDelayP", futexDelayP).kv("futexSpur", futexSpur);
     j.kv("bg", bg).kv("unbounded", unbounded).kv("tail", tail).kv("salt", salt);
+    if (reps > 1) j.kv("reps", reps);
+    if (slowStage >= 0) j.kv("slowStage", slowStage).kv("slowFrom", slowFrom).kv("slowUs", slowUs);
+    if (!family.empty()) j.kv("family", family);
     return j;
   }
 };
@@ -139,6 +149,9 @@ static void applySpec(const Spec& s) {
   g.unbounded = s.unbounded;
   g.salt = s.salt;
   g.yieldInStage = s.yieldInStage;
+  g.slowStage = s.slowStage;
+  g.slowFrom = s.slowFrom;
+  g.slowUs = s.slowUs;
   for (int k = 0; k < kMaxStages; ++k) {
     bool in = k < s.nStages();
     g.limit[k] = in ? s.limit[k] : 1;
@@ -431,10 +444,41 @@ static Spec genFlow(vrt::Rng& r, bool c28) {
     s.bg = false;
     s.tail = true;
   }
+  if (!c28 && r.chance(0.12)) {
+    // "slow tail" families, looped many times per case. (a) unlimited-then-limited: an unlimited
+    // transform is still working on the last item(s) when the generator has finished and the caller
+    // walks the wait()s; the item then arrives at a LIMITED stage whose completion callback may just
+    // have found the queue empty (sites 22/23 delayed) -> nobody but a wait() that still looks can
+    // dispatch it. (b) limited-upstream-busy: the same with a limited slow stage feeding a limited one.
+    int sub = static_cast<int>(r.below(4));
+    s = Spec();
+    s.salt = r.next() | 1;
+    static const int shapesA[] = {24, 7, 12};
+    s.shape = sub < 3 ? shapesA[sub] : (r.chance(0.5) ? 7 : 17);
+    ns = s.nStages();
+    s.n = r.range(1, 8);
+    s.pool = static_cast<int>(r.range(2, 6));
+    s.limit[0] = r.chance(0.7) ? 1 : 2;
+    for (int k = 1; k < ns; ++k) {
+      s.limit[k] = r.chance(0.6) ? 1 : 2;
+      static const int dw[] = {0, 1, 3, 8, 30};
+      s.dwell[k] = r.pick(dw);
+    }
+    if (sub < 3) s.limit[1] = kNoLimit; // (shape 24's sink is a plain function: serial)
+    if (ns == 5) s.limit[3] = r.chance(0.5) ? kNoLimit : 2;
+    s.slowStage = 1;
+    s.slowFrom = std::max<long>(0, s.n - (r.chance(0.6) ? 2 : 1));
+    s.slowUs = static_cast<int>(r.range(1000, 10000));
+    s.dwell[1] = 0;
+    s.reps = static_cast<int>(std::max<long>(30, std::min<long>(200, 300000 / s.slowUs)));
+    s.hookPipe = 0.9;
+    s.family = sub < 3 ? "tail:unlimited-then-limited" : "tail:limited-upstream-busy";
+  }
   return s;
 }
 
 static std::string flowKey(const Spec& s) {
+  if (!s.family.empty()) return std::string("pipe/") + s.family + "/" + std::to_string(s.nStages()) + "st/" + s.limString() + "/" + s.poolClass();
   return std::string("pipe/") + std::to_string(s.nStages()) + "st/" + s.limString() + "/" + (s.anyFilter() ? "filt" : "nofilt") + "/" + s.poolClass();
 }
 
@@ -466,6 +510,7 @@ static void flowClasses(const Spec& s, std::vector<std::string>& cls, uint64_t h
   if (s.n > 1000) cls.push_back("items:large");
   if (s.bg) cls.push_back("bg-load");
   if (s.tail) cls.push_back("tail-race");
+  if (!s.family.empty()) cls.push_back(s.family);
   bool someF = false, allF = false;
   for (int k = 0; k < ns; ++k) {
     if (s.filterCapable(k) && s.filtT[k] > 0 && s.filtT[k] < 65536) someF = true;
@@ -483,6 +528,7 @@ static void runFlowCase(long idx, bool c28) {
   applySpec(s);
   uint64_t h23before = vrt::hookHits(V::kPipeCompletionAfterFailedDequeue);
   RunResult rr;
+  long badIters = 0, firstBadIter = -1, itersDone = 1;
   {
     dispenso::ThreadPool pool(static_cast<size_t>(s.pool));
     BgLoad bg;
@@ -491,6 +537,23 @@ static void runFlowCase(long idx, bool c28) {
     vrt::watchdogArm();
     g_hw.arm(&pool, s.bg);
     rr = runPipelineOnce(s, pool);
+    // looped families: the same pipeline again and again on the same pool, judged per iteration
+    for (int it = 1; it < s.reps && badIters < 3; ++it) {
+      DeliveryObs o = checkDelivery(s);
+      bool bad = rr.threw || o.lost || o.dup || o.extra || g.chainBad.load() || rr.inflightAtReturn != 0;
+      if (bad) {
+        if (badIters == 0) {
+          firstBadIter = it - 1;
+          reportDelivery(s, rr, "C27", "");
+        }
+        ++badIters;
+      }
+      reportLimits(s, "C28", "");
+      applySpec(s);
+      g_hw.tick();
+      rr = runPipelineOnce(s, pool);
+      ++itersDone;
+    }
     g_hw.disarm();
     vrt::watchdogDisarm();
     bg.finish();
@@ -525,6 +588,7 @@ static void runFlowCase(long idx, bool c28) {
   }
   J st = obsJson(s, rr);
   st.kv("hits23", hits23);
+  if (s.reps > 1) st.kv("iters", itersDone).kv("badIters", badIters).kv("firstBadIter", firstBadIter);
   vrt::caseEnd(st, nt ? s.json().str() : "", cls);
 }
 
@@ -595,6 +659,11 @@ static std::string excKey(const Spec& s, int thrower) {
   std::string key = std::string("exc/") + (lim ? "lim" : "nolim") + "/" + (genTasks(s) >= 2 ? "genpar" : "genser") + "/" + std::to_string(ns) + "st/thrower-" + tk + "-" + s.limClass(thrower) + "/" + s.posClass + "/" + s.poolClass();
   if (s.unbounded) key += "/unbounded";
   if (s.bg) key += "/bg";
+  {
+    char tc = s.code(thrower);
+    if (tc == 'c' || tc == 'C') key += "/cref";
+    if (tc == 'w' || tc == 'W') key += "/rref";
+  }
   // fixed last component: a bare case key (hang / crash) can be told from "<key>/<monitor subkey>"
   return key + "/end";
 }
@@ -836,7 +905,8 @@ static void runC29() {
   const long stride = std::max<long>(1, vrt::g_args.getInt("estride", 1));
   const long nEnum = static_cast<long>(en.size());
   const long nRand = vrt::g_args.getInt("n", vrt::thorough() ? 12000 : 1200);
-  for (long idx = 0; idx < nEnum + nRand; ++idx) {
+  const long nRef = vrt::g_args.getInt("nref", vrt::thorough() ? 6000 : 640);
+  for (long idx = 0; idx < nEnum + nRand + nRef; ++idx) {
     if (!vrt::selected(idx)) continue;
     vrt::Rng r = vrt::caseRng(idx);
     Spec s;
@@ -876,6 +946,39 @@ static void runC29() {
       }
       s.posClass = e.pos == 0 ? "first" : (e.pos == e.nItems - 1 ? "last" : "middle");
       cls.push_back("enumerated");
+    } else if (idx >= nEnum + nRand) {
+      // The thrower takes its input by const reference (sink) or by rvalue reference without moving
+      // from it (transform): the item and its payload are still owned by the pipeline's closure when
+      // the stage throws, so a closure that is not destroyed after a throwing invocation is a leak
+      // the payload counter and LSan see. Limits 1,2,4,8, pools 0..4 (pool 1: one deterministic
+      // worker schedule), throw at the first / a middle / the last item.
+      static const int shapes[] = {25, 26, 27, 27, 28, 29};
+      s.shape = r.pick(shapes);
+      s.pool = static_cast<int>(r.below(5));
+      int ns = s.nStages();
+      s.n = r.chance(0.5) ? r.range(1, 8) : r.range(9, 60);
+      s.limit[0] = r.chance(0.75) ? 1 : 2;
+      for (int k = 1; k < ns; ++k) {
+        static const long lim[] = {1, 2, 4, 8};
+        static const int dw[] = {0, 0, 1, 5, 20};
+        s.limit[k] = r.pick(lim);
+        s.dwell[k] = r.pick(dw);
+      }
+      s.dwell[0] = r.chance(0.5) ? 0 : 3;
+      static const double hp[] = {0, 0, 0.3, 0.9};
+      s.hookPipe = r.pick(hp);
+      // thrower: a stage whose functor takes a reference
+      std::vector<int> cand;
+      for (int k = 1; k < ns; ++k) {
+        char c = s.code(k);
+        if (c == 'c' || c == 'C' || c == 'w' || c == 'W') cand.push_back(k);
+      }
+      thrower = cand[r.below(cand.size())];
+      int pc = static_cast<int>(r.below(3));
+      long tag = pc == 0 ? 0 : (pc == 1 ? s.n / 2 : s.n - 1);
+      s.throwLo[thrower] = s.throwHi[thrower] = tag;
+      s.posClass = pc == 0 ? "first" : (pc == 1 ? "middle" : "last");
+      s.family = "byref";
     } else {
       s.shape = static_cast<int>(r.below(static_cast<uint64_t>(kNumShapes)));
       static const int pools[] = {0, 1, 2, 2, 3, 4, 4, 6, 8, 9};
@@ -964,6 +1067,11 @@ static void runC29() {
     cls.push_back(s.poolClass());
     cls.push_back(std::string("thrower:") + (ns == 1 ? "single" : (thrower == 0 ? "gen" : (thrower == ns - 1 ? "sink" : "xform"))));
     cls.push_back(std::string("thrower-limit:") + s.limClass(thrower));
+    {
+      char tc = s.code(thrower);
+      if (tc == 'c' || tc == 'C') cls.push_back("thrower-takes-const-ref");
+      if (tc == 'w' || tc == 'W') cls.push_back("thrower-takes-rvalue-ref");
+    }
     runExcCase(idx, s, thrower, cls);
   }
 }
